@@ -146,13 +146,13 @@ def gen(ck, tier, tpath, info):
 
     q = tier == "quick"
     # backend, full value table: every leaf after every step, a sample of deep trees per step, all deep trees at the end
-    hgen("FilterGenH backend, full table", 110 if q else 1500, False, allv, 8 if q else 12, ["atoms"], [["deep", 40]],
+    hgen("FilterGenH backend, full table", 140 if q else 600, False, allv, 8 if q else 12, ["atoms"], [["deep", 40]],
          ["deep"], 20 if q else 60)
     # backend, 4 values: a sample of the depth-2 universe per step, the whole universe on the final states
     hgen("FilterGenH backend, 4 values", 40 if q else 400, False, red, 8 if q else 12, [], [["d2", 250]],
          ["d2"], 20, finpre=[] if q else ["d3", "d3b"])
     # tiered, 4 values, filtered deletes drawn from the depth-2 universe by TLC
-    hgen("FilterGenH tiered, 4 values", 500 if q else 4000, True, red, 9 if q else 11, [], [["d2", 40]], [], 0,
+    hgen("FilterGenH tiered, 4 values", 700 if q else 4000, True, red, 9 if q else 11, [], [["d2", 40]], [], 0,
          lo=fdlo, hi=fdhi)
     # tiered, exhaustive: 1 document, 1 value, every 2-operation prefix x every fdel target
     hgen("FilterGenH tiered exhaustive, 1 id 1 value, 2 ops + fdel", 0, True, [a], 3, ["fx"], [], [], 0, lo=fxlo, hi=fxhi,
